@@ -18,7 +18,7 @@ func init() { Registry["C07"] = c07 }
 // a sign-of-dependence abstract interpretation that classifies every value as independent of /
 // non-decreasing in / non-increasing in designated inputs.
 func c07(c *Ctx) {
-	c.R.Explanation = "C07 decided on the SSA of /repo by a monotonicity analysis (sign-of-dependence abstract interpretation, engine E8): every value is classified w.r.t. designated inputs as independent / non-decreasing / non-increasing / unknown. Arithmetic combines directions (a factor's sign comes from branch facts, the range analysis E4 or a recorded hypothesis); int/float conversions, float32 rounding, math.Round/Floor/Ceil/Min/Max keep the direction; loop-carried values by fixpoint when the trip count is input-independent; a definition chosen by an input-dependent branch is treated piecewise: each piece non-decreasing, pieces separated by opposing tests on one monotone quantity against an input-independent threshold, and sup(lower piece) <= inf(upper piece) shown by E4 (idioms: select-max/min, integer bump a/a+1). R-mono obligations: (1) linear curve: result non-decreasing in Sensor.GetMovingAvg() (min/max ramp proved piecewise; the step form through the wrapper int(math.Round(interpolate(steps, avg/1000)))); (2) inside util.CalculateInterpolatedCurveValue every input-dependent return is non-decreasing in `input` (under: keys sorted ascending, step values non-decreasing); (3) function curves sum, minimum, maximum, average non-decreasing in every member value (difference and delta are not claimed by the property); (4) DirectControlLoop.Cycle non-decreasing in target (util.Coerce analysed in place; needs maxPwmChangePerCycle >= 0); (5) the target computation: request non-decreasing in the curve value (clamp, rescale, stall bump); (6) the write routine: value handed to Fan.SetPwm non-decreasing in the request (FindClosest and the PWM-map lookup through stated premises). R-keys (shared with C12): every supported input reported by the extraction is a key of the PWM map (a phantom key would map to output 0 and break the monotone write path). NOT decided: ordering between different interpolation segments (relational loop invariant), the binary search of util.FindClosest (hypothesis), numeric agreement of values; PID algorithm and PID curves are outside the property."
+	c.R.Explanation = "C07 decided on the SSA of /repo by a monotonicity analysis (sign-of-dependence abstract interpretation, engine E8): every value is classified w.r.t. designated inputs as independent / non-decreasing / non-increasing / unknown. Arithmetic combines directions (a factor's sign comes from branch facts, the range analysis E4 or a recorded hypothesis); int/float conversions, float32 rounding, math.Round/Floor/Ceil/Min/Max keep the direction; loop-carried values by fixpoint when the trip count is input-independent; a definition chosen by an input-dependent branch is treated piecewise: each piece non-decreasing, pieces separated by opposing tests on one monotone quantity against an input-independent threshold, and sup(lower piece) <= inf(upper piece) shown by E4 (idioms: select-max/min, integer bump a/a+1). R-mono obligations: (1) linear curve: result non-decreasing in Sensor.GetMovingAvg() (min/max ramp proved piecewise; the step form through the wrapper int(math.Round(interpolate(steps, avg/1000)))); (2) inside util.CalculateInterpolatedCurveValue every input-dependent return is non-decreasing in `input` (under: keys sorted ascending, step values non-decreasing); (3) function curves sum, minimum, maximum, average non-decreasing in every member value (difference and delta are not claimed by the property); (4) DirectControlLoop.Cycle non-decreasing in target (util.Coerce analysed in place; needs maxPwmChangePerCycle >= 0); (5) the target computation: request non-decreasing in the curve value (clamp, rescale, stall bump); (6) the write routine: value handed to Fan.SetPwm non-decreasing in the request (FindClosest and the PWM-map lookup through stated premises). R-keys (shared with C12): every supported input reported by the extraction is a key of the PWM map (a phantom key would map to output 0 and break the monotone write path). NOT decided: ordering between different interpolation segments (relational loop invariant), the binary search of util.FindClosest (hypothesis), numeric agreement of values; PID algorithm and PID curves are outside the property. R-skip = the write routine skips the write only when a fresh successful read of the fan's PWM equals the value it would write (shared with C05): a write skipped on another condition leaves a stale, possibly higher value in the fan, so a rising request can lower the PWM."
 	c.R.Assumptions = append(c.R.Assumptions,
 		"IEEE-754 conversions and roundings are monotone; values stay far below 2^53 and the int range",
 		"premises of the property itself: step sets and PWM maps are non-decreasing, linear curves have min < max",
@@ -35,6 +35,9 @@ func c07(c *Ctx) {
 	// the write routine is monotone only over real keys of the map: a reported "supported input" that is
 	// not a key reads as output 0 (shared with C12 R-keys)
 	c.ruleSupportedKeys("R-keys")
+	// the written value is monotone in the request only if a write is never skipped while the fan holds a
+	// different (stale) value: the skip condition is "fresh successful read == value to be written" (shared with C05)
+	c.ruleSkip("R-skip", tb)
 }
 
 func (c *Ctx) newMono(fn *ssa.Function, tb *ir.TB) *mono.An {
@@ -100,6 +103,9 @@ func (c *Ctx) monoCurves(rule string, tb *ir.TB) {
 			if ir.IsInvoke(cc, PkgCurves, "SpeedCurve", "Evaluate") {
 				readsMembers = true
 			}
+			if cal := ir.Callee(cc).Static; cal != nil && load_FuncPkgPath(cal) == PkgCurves && yieldsCurveValue(cal, 2) {
+				readsMembers = true
+			}
 		})
 		usesPid := c.staticallyCalls(fn, func(f *ssa.Function) bool { return ir.FuncIs(f, PkgUtil, "*PidLoop.Loop") }, 3)
 		switch {
@@ -138,6 +144,12 @@ func (c *Ctx) monoFunctionCurve(rule string, fn *ssa.Function, tb *ir.TB) {
 		if ex, ok := v.(*ssa.Extract); ok && ex.Index == 0 {
 			if call, ok := ex.Tuple.(*ssa.Call); ok && ir.IsInvoke(call, PkgCurves, "SpeedCurve", "Evaluate") {
 				return mono.Up, true
+			}
+			// a curves-package helper that hands back a member's value (lookup + Evaluate in one place)
+			if call, ok := ex.Tuple.(*ssa.Call); ok {
+				if cal := ir.Callee(call).Static; cal != nil && load_FuncPkgPath(cal) == PkgCurves && yieldsCurveValue(cal, 2) {
+					return mono.Up, true
+				}
 			}
 		}
 		if u, ok := v.(*ssa.UnOp); ok && u.Op == token.MUL {
